@@ -62,6 +62,10 @@ type queuedDataFrame struct {
 	streamID  uint32
 	endStream bool
 	data      []byte
+
+	// maxFrameSize returns the receiver's current SETTINGS_MAX_FRAME_SIZE. The frame was sized when
+	// it was queued; the receiver may have lowered the limit while the frame waited for window.
+	maxFrameSize func() uint32
 }
 
 func (f *queuedDataFrame) StreamID() uint32 {
@@ -73,7 +77,15 @@ func (f *queuedDataFrame) flowControlSize() int {
 }
 
 func (f *queuedDataFrame) send(dest *http2.Framer) error {
-	return dest.WriteData(f.streamID, f.endStream, f.data)
+	data := f.data
+	if f.maxFrameSize != nil {
+		for max := int(f.maxFrameSize()); max > 0 && len(data) > max; data = data[max:] {
+			if err := dest.WriteData(f.streamID, false, data[:max]); err != nil {
+				return err
+			}
+		}
+	}
+	return dest.WriteData(f.streamID, f.endStream, data)
 }
 
 func (f *queuedDataFrame) String() string {
